@@ -91,11 +91,13 @@ def imgDict (w h : Nat) : List (List Nat × Obj) :=
 
 def endobjTrailer : List Nat := [10, 101, 110, 100, 111, 98, 106, 10]
 
-def handleImg (w : Nat) (data : List Nat) (impl : String) : String × String :=
+def handleImg (objstm : Bool) (w : Nat) (data : List Nat) (impl : String) : String × String :=
   if w == 0 || data.length % w != 0 || data.isEmpty then ("bad-request", "na") else
   let kvs := imgDict w (data.length / w)
   let body := Stream.serStream kvs data
-  let model := hexField body ++ "|" ++ stmAnswer (body ++ endobjTrailer) ++ "|reader:" ++ hexField data
+  -- the whole-file `PdfReader` is run on the classic layout only (see the harness)
+  let rdr := "reader:" ++ (if objstm then "n/a" else hexField data)
+  let model := hexField body ++ "|" ++ stmAnswer (body ++ endobjTrailer) ++ "|" ++ rdr
   let wantDict := canonObj false (.dict (Stream.setLength kvs data.length))
   match impl.splitOn "|" with
   | [ihex, iparse, inext, irdr] =>
@@ -103,7 +105,7 @@ def handleImg (w : Nat) (data : List Nat) (impl : String) : String × String :=
     | none => (model, "fail:unusable-impl-answer")
     | some ibytes =>
       let t1 := iparse == "S " ++ wantDict ++ " " ++ hexField data && inext == "endobj,eof"
-      let tr := irdr == "reader:" ++ hexField data
+      let tr := irdr == rdr
       let t2 := match Spec.Stream.readStream (ibytes ++ endobjTrailer) with
         | some (k, d, rest) => canonObj false (.dict k) == wantDict && d == data && rest == endobjTrailer
         | none => false
@@ -131,7 +133,7 @@ def handle (req impl : String) : String × String :=
   | ["img", cfg, w, h] =>
     if cfg != "d" && cfg != "o" then ("bad-request", "na") else
     match w.toNat?, bytesOfHex? h with
-    | some wn, some b => handleImg wn b impl
+    | some wn, some b => handleImg (cfg == "o") wn b impl
     | _, _ => ("bad-request", "na")
   | ["tok", h] =>
     match bytesOfHex? h with
